@@ -69,6 +69,11 @@ def run_case(case):
     q = case['carrier'].format(lit_q)
     pos = q.index(lit_q)
     model = models(culture)[1 if pct else 0]
+    if case.get('pre'):
+        # a previous call on the same (cached) model must not influence this one: first recognise a literal written in the OTHER
+        # convention (marks swapped), ignore its result, then ask the real question
+        other_th, other_dec = dec, th
+        model.parse(group(case['pre'][0], other_th) + other_dec + case['pre'][1])
     if case.get('thread'):
         # the property holds for any caller: every fourth case runs on a fresh (non-importing) thread
         import threading
@@ -112,7 +117,7 @@ def run_case(case):
             vs.append(V('VALUE_WRONG', {'query': q, 'expected': str(exp), 'got': got[0]}, bucket='VALUE:' + bucket))
     nt = bool(case['frac']) or (case['grouped'] and len(case['int']) > 3) or case['neg']
     return R(vs, nontrivial=nt, labels=[culture, 'pct' if pct else 'num', form, 'neg' if case['neg'] else 'pos',
-                                        'alone' if case['carrier'] == '{}' else 'carrier'] + (['worker_thread'] if case.get('thread') else []),
+                                        'alone' if case['carrier'] == '{}' else 'carrier'] + (['worker_thread'] if case.get('thread') else []) + (['after_foreign_literal'] if case.get('pre') else []),
              obs={'query': q, 'entities': got}, key=[culture, pct, q])
 
 
@@ -159,20 +164,21 @@ def int_strings():
 
 
 def cases(culture=None):
-    def mk(c, i, frac, grouped, neg, carrier_i, pct, thread):
+    def mk(c, i, frac, grouped, neg, carrier_i, pct, thread, pre):
         # keep the literal within 15 significant digits: beyond that the documented precision rounds it
         frac = frac[:max(0, 15 - len(i))]
-        return {'culture': c, 'int': i, 'frac': frac, 'grouped': grouped, 'neg': neg, 'carrier': CARRIERS[c][carrier_i % len(CARRIERS[c])], 'pct': pct, 'thread': thread}
+        return {'culture': c, 'int': i, 'frac': frac, 'grouped': grouped, 'neg': neg, 'carrier': CARRIERS[c][carrier_i % len(CARRIERS[c])], 'pct': pct, 'thread': thread, 'pre': pre}
     frac = st.one_of(st.just(''), st.just(''), st.text('0123456789', min_size=1, max_size=6))
     return st.builds(mk, st.sampled_from(CULTURES) if culture is None else st.just(culture), int_strings(), frac, st.booleans(),
                      st.sampled_from([False, False, True]), st.integers(0, 9), st.sampled_from([False, False, True]),
-                     st.sampled_from([False, False, False, True]))
+                     st.sampled_from([False, False, False, True]),
+                     st.one_of(st.none(), st.none(), st.none(), st.tuples(st.integers(1000, 9999999).map(str), st.text('0123456789', min_size=1, max_size=3))))
 
 
 def small_integers():
     for c in CULTURES:
         for n in range(10000):
-            yield {'culture': c, 'int': str(n), 'frac': '', 'grouped': False, 'neg': False, 'carrier': '{}' if n % 3 else 'x {} y', 'pct': False}
+            yield {'culture': c, 'int': str(n), 'frac': '', 'grouped': False, 'neg': False, 'carrier': '{}' if n % 3 else 'x {} y', 'pct': False, 'thread': False, 'pre': None}
 
 
 def parts(tier, seed):
